@@ -199,7 +199,7 @@ func documentOracles(c *Case, r Real) []failure {
 	if err != nil {
 		return append(fs, failure{"well-formed-json", fmt.Sprintf("body is not a JSON document (%v): %.200q", err, r.Body)})
 	}
-	for k := range d.top {
+	for _, k := range sortedKeys(d.top) {
 		switch k {
 		case "data", "errors", "meta", "jsonapi", "links", "included":
 		default:
@@ -255,8 +255,8 @@ func documentOracles(c *Case, r Real) []failure {
 			fs = append(fs, failure{"resource-identity", fmt.Sprintf("resource object without a string id: %v", o)})
 		}
 		rels, _ := o["relationships"].(map[string]any)
-		for name, rv := range rels {
-			rel, _ := rv.(map[string]any)
+		for _, name := range sortedKeys(rels) {
+			rel, _ := rels[name].(map[string]any)
 			links, _ := rel["links"].(map[string]any)
 			if s, _ := links["self"].(string); s != "/"+ty+"/"+id+"/relationships/"+name {
 				fs = append(fs, failure{"links-form", fmt.Sprintf("relationship %q of %s/%s has self link %q", name, ty, id, s)})
